@@ -8,10 +8,13 @@ import (
 	"fmt"
 	"math"
 
+	"google.golang.org/grpc/codes"
 	"google.golang.org/protobuf/proto"
 
+	measurev1 "github.com/apache/skywalking-banyandb/api/proto/banyandb/measure/v1"
 	modelv1 "github.com/apache/skywalking-banyandb/api/proto/banyandb/model/v1"
 	"github.com/apache/skywalking-banyandb/pkg/query/vectorized"
+	vmeasure "github.com/apache/skywalking-banyandb/pkg/query/vectorized/measure"
 	mframe "github.com/apache/skywalking-banyandb/pkg/query/vectorized/measure/frame"
 	sframe "github.com/apache/skywalking-banyandb/pkg/query/vectorized/stream/frame"
 	"github.com/apache/skywalking-banyandb/pkg/verif/e2e"
@@ -65,37 +68,37 @@ func buildFrame(fc frameCase) *vectorized.RecordBatch {
 				if null {
 					col.AppendNull()
 				} else {
-					col.Append(fInts[r])
+					col.Append(fInts[r%3])
 				}
 			case *vectorized.TypedColumn[float64]:
 				if null {
 					col.AppendNull()
 				} else {
-					col.Append(fFloats[r])
+					col.Append(fFloats[r%3])
 				}
 			case *vectorized.TypedColumn[string]:
 				if null {
 					col.AppendNull()
 				} else {
-					col.Append(fStrings[r])
+					col.Append(fStrings[r%3])
 				}
 			case *vectorized.TypedColumn[[]byte]:
 				if null {
 					col.AppendNull()
 				} else {
-					col.Append(fBytes[r])
+					col.Append(fBytes[r%3])
 				}
 			case *vectorized.TypedColumn[*modelv1.TagValue]:
 				if null {
 					col.AppendNull()
 				} else {
-					col.Append(fTagVals[r])
+					col.Append(fTagVals[r%3])
 				}
 			case *vectorized.TypedColumn[*modelv1.FieldValue]:
 				if null {
 					col.AppendNull()
 				} else {
-					col.Append(fFldVals[r])
+					col.Append(fFldVals[r%3])
 				}
 			}
 		}
@@ -212,6 +215,30 @@ func frameRoundTrip(r *ev.Run, thorough bool) {
 		"stream":  {vectorized.ColumnTypeInt64, vectorized.ColumnTypeString, vectorized.ColumnTypeBytes, vectorized.ColumnTypeTagValue},
 	}
 	n, bad, withNull, withSel := 0, 0, 0, 0
+	one := func(fc frameCase) {
+		n++
+		for _, c := range fc.Cols {
+			if c.Mask != 0 {
+				withNull++
+				break
+			}
+		}
+		if fc.Sel != nil {
+			withSel++
+		}
+		if msg := frameOne(fc); msg != "" {
+			bad++
+			last := "none"
+			if len(fc.Cols) > 0 {
+				last = vectorized.ColumnType(fc.Cols[len(fc.Cols)-1].Type).String()
+			}
+			r.Violation(fmt.Sprintf("frame %s codec round trip: %s (last column %s, rows=%d, cols=%d)", fc.Codec, msgClass(msg), last, fc.Rows, len(fc.Cols)),
+				map[string]any{"frame": fc, "message": msg})
+		}
+		if n%40000 == 1 {
+			r.Sample(map[string]any{"frame": fc})
+		}
+	}
 	for _, codec := range []string{"measure", "stream"} {
 		for rows := 0; rows <= 3; rows++ {
 			var colAlpha []frameCol
@@ -235,32 +262,7 @@ func frameRoundTrip(r *ev.Run, thorough bool) {
 					if sel != nil && len(cols) > 2 {
 						continue // selection vectors are enumerated for frames of <= 2 columns
 					}
-					fc := frameCase{Codec: codec, Rows: rows, Cols: cols, Sel: sel}
-					n++
-					nulls := false
-					for _, c := range cols {
-						if c.Mask != 0 {
-							nulls = true
-						}
-					}
-					if nulls {
-						withNull++
-					}
-					if sel != nil {
-						withSel++
-					}
-					if msg := frameOne(fc); msg != "" {
-						bad++
-						last := "none"
-						if len(cols) > 0 {
-							last = vectorized.ColumnType(cols[len(cols)-1].Type).String()
-						}
-						r.Violation(fmt.Sprintf("frame %s codec round trip: %s (last column %s, rows=%d, cols=%d)", codec, msgClass(msg), last, rows, len(cols)),
-							map[string]any{"frame": fc, "message": msg})
-					}
-					if n%40000 == 1 {
-						r.Sample(map[string]any{"frame": fc})
-					}
+					one(frameCase{Codec: codec, Rows: rows, Cols: cols, Sel: sel})
 				}
 				if len(cols) == maxCols {
 					return
@@ -271,12 +273,30 @@ func frameRoundTrip(r *ev.Run, thorough bool) {
 			}
 			rec(nil)
 		}
+		// the validity bitmap's byte boundary: 8 and 9 rows; one column with every null mask, two columns with the
+		// masks {none, all, alternating, first only, last only}
+		for _, rows := range []int{8, 9} {
+			all := 1<<rows - 1
+			edge := []int{0, all, 0x155 & all, 1, 1 << (rows - 1)}
+			for _, t := range types[codec] {
+				for m := 0; m <= all; m++ {
+					one(frameCase{Codec: codec, Rows: rows, Cols: []frameCol{{Type: int(t), Mask: m}}})
+				}
+				for _, t2 := range types[codec] {
+					for _, m1 := range edge {
+						for _, m2 := range edge {
+							one(frameCase{Codec: codec, Rows: rows, Cols: []frameCol{{Type: int(t), Mask: m1}, {Type: int(t2), Mask: m2}}})
+						}
+					}
+				}
+			}
+		}
 	}
 	r.Set("frame_round_trips", n)
 	r.Set("frame_round_trips_with_null_cells", withNull)
 	r.Set("frame_round_trips_with_selection_vector", withSel)
 	r.Set("frame_round_trip_failures", bad)
-	r.Set("frame_bounds", fmt.Sprintf("codecs measure(6 types) and stream(4 types); rows 0..3; every null mask; 0..%d columns, every type sequence; selection vectors for <=2 columns", maxCols))
+	r.Set("frame_bounds", fmt.Sprintf("codecs measure(6 types) and stream(4 types); rows 0..3: every null mask, 0..%d columns, every type sequence, selection vectors for <=2 columns; rows 8 and 9: one column with every null mask, two columns with 5 edge masks each", maxCols))
 	fmt.Printf("C15: frame codec round trips: %d (%d with nulls, %d with a selection vector), failures %d\n", n, withNull, withSel, bad)
 }
 
@@ -290,4 +310,83 @@ func msgClass(m string) string {
 		return m[:40]
 	}
 	return m
+}
+
+// wireRoundTrip pushes every distinct non-empty measure answer of the row path through the columnar wire format a
+// data node uses towards the liaison (pkg/query/vectorized/measure/raw_emit.go): data points -> passthrough batch ->
+// (a) proto-bytes columns / (b) typed columns (convertPassthroughForFrame, as DrainPipelineToFrame does) -> frame ->
+// DecodeFramesToInternalDataPoints; the decoded data points must equal the originals.
+func wireRoundTrip(r *ev.Run, cases []reqCase, off []result) {
+	seen := map[string]struct{}{}
+	n, bad := 0, 0
+	for i, c := range cases {
+		if c.Engine != 'M' || off[i].code != codes.OK {
+			continue
+		}
+		if _, ok := seen[string(off[i].resp)]; ok {
+			continue
+		}
+		seen[string(off[i].resp)] = struct{}{}
+		resp := &measurev1.QueryResponse{}
+		if proto.Unmarshal(off[i].resp, resp) != nil || len(resp.GetDataPoints()) == 0 {
+			continue
+		}
+		idps := make([]*measurev1.InternalDataPoint, len(resp.GetDataPoints()))
+		for j, dp := range resp.GetDataPoints() {
+			idps[j] = &measurev1.InternalDataPoint{DataPoint: dp, ShardId: uint32(j % 2)}
+		}
+		for _, variant := range []string{"passthrough", "typed"} {
+			n++
+			msg := wireOne(variant, idps)
+			if msg != "" {
+				bad++
+				r.Violation(fmt.Sprintf("measure wire frame (%s) round trip: %s [%s]", variant, msgClass(msg), c.Shape),
+					map[string]any{"wire": variant, "message": msg, "request": pj(c.Msg), "data_points": pj(resp)})
+			}
+		}
+	}
+	r.Set("wire_round_trips", n)
+	r.Set("wire_round_trip_failures", bad)
+	r.Set("wire_absent_timestamp_decoded_as_zero", wireNilTS)
+	fmt.Printf("C15: measure wire-format round trips over distinct row-path answers: %d, failures %d\n", n, bad)
+}
+
+var wireNilTS int
+
+func wireOne(variant string, idps []*measurev1.InternalDataPoint) (msg string) {
+	defer func() {
+		if p := recover(); p != nil {
+			msg = fmt.Sprintf("panic: %v", p)
+		}
+	}()
+	var body []byte
+	var err error
+	if variant == "typed" {
+		body, err = vmeasure.VerifC15EmitTyped(idps)
+	} else {
+		body, err = vmeasure.SerializeDataPointsToFrame(idps)
+	}
+	if err != nil {
+		return "emit: " + err.Error()
+	}
+	back, err := vmeasure.DecodeFramesToInternalDataPoints([][]byte{body})
+	if err != nil {
+		return "decode: " + err.Error()
+	}
+	if len(back) != len(idps) {
+		return fmt.Sprintf("rows: decoded %d data points, want %d", len(back), len(idps))
+	}
+	for i := range idps {
+		// abstention: the frame has a non-nullable timestamp column, so the absent timestamp of an aggregated data
+		// point comes back as the zero timestamp; not demanded (the liaison rebuilds aggregated rows).
+		if idps[i].GetDataPoint().GetTimestamp() == nil && back[i].GetDataPoint().GetTimestamp() != nil &&
+			back[i].GetDataPoint().GetTimestamp().GetSeconds() == 0 && back[i].GetDataPoint().GetTimestamp().GetNanos() == 0 {
+			back[i].DataPoint.Timestamp = nil
+			wireNilTS++
+		}
+		if !proto.Equal(idps[i], back[i]) {
+			return fmt.Sprintf("data point %d differs: got %s want %s", i, trunc(back[i].String(), 300), trunc(idps[i].String(), 300))
+		}
+	}
+	return ""
 }
